@@ -600,6 +600,56 @@ Proof.
   - apply (wait_idle_not_blocked _ _ _ false R En).
 Qed.
 
+(* ---- an accepted Start is followed by an execution ---- *)
+(* a registered waiter always belongs to a live run goroutine: there is no waiter without a run *)
+Theorem waiter_has_run ms s id :
+  reach (fixed ms) s -> waiter (get s id) <> WNone ->
+  exists e, engines (get s id) = [e] /\ execs (get s id) = 1%nat.
+Proof.
+  intros R W. pose proof (inv_good _ _ (inv_reach _ _ R) id) as G. unfold good in G.
+  destruct (engines (get s id)) as [|e [|e' r]].
+  - destruct G as (Wn & _). contradiction.
+  - exists e. destruct G as (X & _). auto.
+  - contradiction.
+Qed.
+
+(* the Start that returns nil has spawned the run (not merely registered it), and the spawned run can take
+   its first step - the durable Running write - whatever else happens first *)
+Theorem accepted_start_spawns_run ms s k s' :
+  reach (fixed ms) s -> step (fixed ms) s (LStartLaunch k) = Some (s', ROk) ->
+  exists id, engines (get s' id) = [ESpawned] /\ waiter (get s' id) = WOpen /\ execs (get s' id) = 1%nat
+             /\ exists s'', step (fixed ms) s' (LEngRunning id 0) = Some (s'', RNone).
+Proof.
+  intros R H. pose proof (inv_reach _ _ R) as [G F L E]. simpl in H.
+  destruct (nth_error (inprog s) k) as [[id stg]|] eqn:Hk; [| discriminate].
+  destruct stg as [| |tv]; try discriminate.
+  destruct (lock_single _ _ _ L Hk) as (K0 & HI).
+  assert (Hin : In (id, SValidated tv) (inprog s)) by (rewrite HI; left; reflexivity).
+  destruct (E _ Hin) as (W & Htv & p & t & Hs & N & _). simpl in W, Hs.
+  pose proof (good_wnone_notstarted _ _ (G id) W Hs N) as Ex.
+  pose proof (good_wnone_noeng _ (G id) W) as En.
+  inversion H; subst s'; clear H. exists id.
+  rewrite get_with_inprog, get_set_same. simpl. rewrite En, Ex. simpl.
+  repeat (split; auto).
+  eexists. unfold step. rewrite get_with_inprog, get_set_same. simpl. reflexivity.
+Qed.
+
+(* a run that exists is never stuck before its end: every stage but the gate-dependent one has its step *)
+Theorem run_not_stuck ms s id e :
+  reach (fixed ms) s -> engines (get s id) = [e] ->
+  match e with
+  | ESpawned => exists s', step (fixed ms) s (LEngRunning id 0) = Some (s', RNone)
+  | ERunning => exists s', step (fixed ms) s (LEngFinish id 0 Completed) = Some (s', RNone)
+  | ETerminal => exists s', step (fixed ms) s (LEngRelease id 0) = Some (s', RNone)
+  | EClosed => exists s', step (fixed ms) s (LEngCleanup id 0) = Some (s', RNone)
+  end.
+Proof.
+  intros R En. pose proof (inv_good _ _ (inv_reach _ _ R) id) as G. unfold good in G. rewrite En in G.
+  destruct G as (_ & W & _).
+  destruct e; unfold step; rewrite En; simpl; try (eexists; reflexivity).
+  rewrite W. eexists; reflexivity.
+Qed.
+
 (* ---- traces ---- *)
 Lemma run_reach c s tr s' rs : reach c s -> run c s tr = Some (s', rs) -> reach c s'.
 Proof.
